@@ -62,7 +62,8 @@ Qed.
 Example existence_guard_examples :
   evalB (env_of [2; 1; 0; 1 / 10]) mb_gas_in_guard /\ ~ evalB (env_of [1; 1; 0; 1 / 10]) mb_gas_in_guard.
 Proof.
-  split; [apply mb_gases_guard; left; lra | intro H; apply mb_gases_guard in H; destruct H; lra].
+  split; [apply (proj2 (mb_gases_guard 2 1 0 (1 / 10))); left; lra
+         | intro H; apply (proj1 (mb_gases_guard 1 1 0 (1 / 10))) in H; destruct H; lra].
 Qed.
 
 (* side conditions of cubic_equivalent are satisfiable: CO2-like numbers *)
